@@ -35,23 +35,24 @@ type LoadOpts struct {
 
 // Prog is one loaded, type-checked, SSA-built program.
 type Prog struct {
-	Name       string
-	Opts       LoadOpts
-	Fset       *token.FileSet
-	Roots      []*packages.Package
-	ModPkgs    map[string]*packages.Package // import path -> package (module packages only)
-	SSA        *ssa.Program
-	Funcs      []*ssa.Function // every function whose source is in a module package (minus new helpers that are only called synchronously: their bodies are visited as part of their callers)
-	AllFuncs   []*ssa.Function // every function whose source is in a module package
-	Aliases    []string        // rename aliases and transparent helpers established for this program (evidence)
-	regGlobals []*ssa.Global
-	regKeys    []*types.Func
-	regObjs    []types.Object // keys this program added to the global registries (Release removes them)
-	regFns     []*ssa.Function
-	byName     map[string]*ssa.Function
-	CG         *callgraph.Graph // Deep only
-	NPkgs      int              // all packages in the import graph
-	NFuncs     int              // all SSA functions (deep) or module functions (shallow)
+	Name          string
+	Opts          LoadOpts
+	Fset          *token.FileSet
+	Roots         []*packages.Package
+	ModPkgs       map[string]*packages.Package // import path -> package (module packages only)
+	SSA           *ssa.Program
+	Funcs         []*ssa.Function // every function whose source is in a module package (minus new helpers that are only called synchronously: their bodies are visited as part of their callers)
+	AllFuncs      []*ssa.Function // every function whose source is in a module package
+	Aliases       []string        // rename aliases and transparent helpers established for this program (evidence)
+	regGlobals    []*ssa.Global
+	regKeys       []*types.Func
+	regObjs       []types.Object // keys this program added to the global registries (Release removes them)
+	regFns        []*ssa.Function
+	regIfaceAlias []*types.Func
+	byName        map[string]*ssa.Function
+	CG            *callgraph.Graph // Deep only
+	NPkgs         int              // all packages in the import graph
+	NFuncs        int              // all SSA functions (deep) or module functions (shallow)
 }
 
 // Rel strips the module path from an import path.
@@ -428,6 +429,10 @@ func (p *Prog) Release() {
 		delete(litMethods, f)
 		delete(recvAlloc, f)
 	}
+	for _, m := range p.regIfaceAlias {
+		delete(ifaceAlias, m)
+	}
+	p.regIfaceAlias = nil
 	helperMu.Unlock()
 	p.regObjs, p.regFns, p.regGlobals = nil, nil, nil
 	paramMapMu.Lock()
